@@ -1,34 +1,50 @@
 #!/usr/bin/env python3
-"""keep_mutant.py <src dir with patch.diff demo.py meta.json> <seeded id> <property> [confirm-log-line]
-Copies a confirmed seeded change into /verif/seeded/<id>/, runs the property's quick check against it
-(applied to /repo and reverted straight afterwards) and records the outcome in meta.json."""
-import json, os, shutil, subprocess, sys
-src, sid, pid = sys.argv[1:4]
+"""keep_mutant.py <src dir with patch.diff demo.py meta.json> <seeded id> <property>[,<other property>...] [confirm-log-line]
+Copies a confirmed seeded change into /verif/seeded/<id>/, runs the quick check of the property it breaks (and of
+any further property named) against it and records the outcome in meta.json.  The change is applied in a private
+scratch worktree of /repo (removed afterwards), never in /repo itself, and the check's outputs are redirected to a
+scratch directory, so this is safe to run while other checks are running."""
+import json, os, shutil, subprocess, sys, tempfile
+src, sid, pids = sys.argv[1:4]
+pids = pids.split(',')
 confirm = sys.argv[4] if len(sys.argv) > 4 else ''
 dst = f'/verif/seeded/{sid}'
 os.makedirs(dst, exist_ok=True)
 for f in ('patch.diff', 'demo.py'):
-    shutil.copy(os.path.join(src, f), os.path.join(dst, f))
+    if os.path.abspath(src) != os.path.abspath(dst):
+        shutil.copy(os.path.join(src, f), os.path.join(dst, f))
 meta = json.load(open(os.path.join(src, 'meta.json')))
-assert subprocess.run(['git', '-C', '/repo', 'status', '--short'], capture_output=True, text=True).stdout.strip() == '', '/repo dirty'
-p = subprocess.run(['git', '-C', '/repo', 'apply', os.path.join(dst, 'patch.diff')], capture_output=True, text=True)
-if p.returncode != 0:
-    print('apply failed', p.stderr); sys.exit(1)
+T = tempfile.mkdtemp(prefix='keepmut.', dir='/tmp')
+wt = os.path.join(T, 'wt')
+subprocess.run(['git', '-C', '/repo', 'worktree', 'add', '--detach', '-f', wt, 'HEAD'], capture_output=True, check=True)
+results = {}
 try:
-    r = subprocess.run(['./check', pid, '--tier', 'quick'], cwd='/verif', capture_output=True, text=True)
+    p = subprocess.run(['git', '-C', wt, 'apply', os.path.join(dst, 'patch.diff')], capture_output=True, text=True)
+    if p.returncode != 0:
+        print('apply failed', p.stderr); sys.exit(1)
+    for pid in pids:
+        env = dict(os.environ, KFAC_REPO=wt, KFAC_VERIF_OUT=os.path.join(T, 'out'), KFAC_VERIF_EVID=os.path.join(T, 'evid'))
+        r = subprocess.run(['./check', pid, '--tier', 'quick'], cwd='/verif', capture_output=True, text=True, env=env)
+        lines = [l for l in r.stdout.splitlines() if l.startswith(('VIOLATION', 'KNOWN-FINDING')) or ' tier=' in l]
+        lines = [l.replace('../tmp/' + os.path.basename(T) + '/', '') for l in lines]
+        results[pid] = {'check_exit_code': r.returncode, 'check_output': [l[:300] for l in lines[:4]],
+                        'detected': r.returncode == 1,
+                        'detected_with_failing_input': any(l.startswith('VIOLATION') and 'no-failing-input-found' not in l for l in lines)}
 finally:
-    subprocess.run(['git', '-C', '/repo', 'checkout', '--', '.'])
-lines = [l for l in r.stdout.splitlines() if l.startswith(('VIOLATION', 'KNOWN-FINDING')) or ' tier=' in l]
+    subprocess.run(['git', '-C', '/repo', 'worktree', 'remove', '--force', wt], capture_output=True)
+    shutil.rmtree(T, ignore_errors=True)
+main = results[pids[0]]
 meta.update({
-    'breaks_property': pid,
+    'breaks_property': pids[0],
     'origin': 'fresh sub-agent given only the property text and its own scratch worktree',
     'confirmed_in_scratch_worktree': confirm,
-    'what_i_ran': [f'tools/confirm_mutant.sh (demo.py on pristine HEAD: exit 0; with patch: non-zero; full pytest suite with patch: passes)',
-                   f'git -C /repo apply seeded/{sid}/patch.diff && ./check {pid} --tier quick ; git -C /repo checkout -- .'],
-    'check_exit_code': r.returncode,
-    'check_output': lines[:4],
-    'detected': r.returncode == 1,
-    'detected_with_failing_input': any(l.startswith('VIOLATION') and 'no-failing-input-found' not in l for l in lines),
+    'what_i_ran': ['tools/confirm_mutant.sh (demo.py on pristine HEAD: exit 0; with patch: non-zero; full pytest suite with patch: passes)',
+                   'tools/keep_mutant.py: patch applied in a scratch worktree of /repo HEAD, KFAC_REPO=<worktree> ./check <pid> --tier quick'],
+    'check_exit_code': main['check_exit_code'],
+    'check_output': main['check_output'],
+    'detected': any(v['detected'] for v in results.values()),
+    'detected_with_failing_input': any(v['detected_with_failing_input'] for v in results.values()),
+    'checks': results,
 })
 json.dump(meta, open(os.path.join(dst, 'meta.json'), 'w'), indent=1)
-print(sid, 'rc', r.returncode, lines[:1])
+print(sid, {k: (v['check_exit_code'], v['detected_with_failing_input']) for k, v in results.items()})
